@@ -1,14 +1,16 @@
 (* C08 — Pixel-range and geometry updates equal the explicit-pixel update.
-   Statements only; proofs in RangeProofs.v.  The dense specification of a range update IS the
-   explicit-pixel update of the pixels the ranges contain (the interpreter's op 23 computes
-   d_update over expand_ranges); the slice path Ops.update_ranges is compared with it on every
-   run for every alignment class.  Proved here: what the ranges contain, that the coverage pixels
-   reserved by the slice path are a superset of the needed ones, and that one slice-wise
-   operation changes exactly the cells of its slice to the operation's value.  The composition
-   (all rows, all blocks) into abs (update_ranges ...) = d_update ... is listed as open in
-   DESIGN.md. *)
+   Statements only; proofs in RangeProofs.v and RangeRefine.v.  The dense specification of a range
+   update IS the explicit-pixel update of the pixels the ranges contain (the interpreter's op 23
+   computes d_update over expand_ranges); the slice path Ops.update_ranges is compared with it on
+   every run for every alignment class.  Proved here: what the ranges contain, that the coverage
+   pixels reserved by the slice path are a superset of the needed ones, that one slice-wise
+   operation changes exactly the cells of its slice, and the composition over all rows and all
+   blocks: on every well-formed map the slice path reads, at every pixel, as the explicit-pixel
+   update of the pixels the ranges contain, and keeps the layout.  The one exclusion ('add' on a
+   map with non-zero sentinel needs non-overlapping ranges) is exact: with overlapping ranges the
+   two paths differ (finding F36), shown by the refuted statement below. *)
 From Coq Require Import QArith.
-From HS Require Import Prelude Cov Map Spec Ops Spec2 Params AtFold MapProofs RangeProofs Exec Exec2 ExecProofs.
+From HS Require Import Prelude Cov Map Spec Ops Spec2 Params AtFold MapProofs RangeProofs RangeRefine Exec Exec2 ExecProofs.
 Open Scope Z_scope.
 
 Theorem C08_ranges_contain :
@@ -27,6 +29,41 @@ Theorem C08_slice_operation_pointwise :
                             o value s start stop) i =
     if (start <=? i) && (i <? stop) then range_elem P o value (znth (p_dv P) s i) else znth (p_dv P) s i.
 Proof. exact range_op_pointwise. Qed.
+
+(* all rows, all blocks, any block order, any number of ranges: the slice path = the explicit-pixel
+   update of the contained pixels, at every pixel *)
+Theorem C08_range_update_equals_explicit_pixel_update :
+  forall (P : params) o (value : p_V P) (m : smap (p_V P)) (na : bool) (rows : list (Z * Z)) q,
+    MapProofs.wf P m -> (forall r, In r rows -> row_ok P m r) ->
+    (o = UAdd -> p_sent_nonzero P = true -> NoDup (expand_ranges rows)) ->
+    0 <= q < npix (p_V P) m ->
+    read (p_V P) (p_dv P)
+         (update_ranges (p_V P) (p_dv P) (p_vadd P) (p_vor P) (p_vand P) (p_vzero P) (p_is_sent P)
+                        (p_sent_nonzero P) m o rows value na) q =
+    read (p_V P) (p_dv P)
+         (update (p_V P) (p_dv P) (p_vadd P) (p_vor P) (p_vand P) (p_vzero P) (p_is_sent P)
+                 (p_sent_nonzero P) m o (map (fun p => (p, value)) (expand_ranges rows)) na) q.
+Proof. exact ranges_eq_pixels. Qed.
+
+Theorem C08_range_update_keeps_layout :
+  forall (P : params) o (value : p_V P) (m : smap (p_V P)) (na : bool) (rows : list (Z * Z)),
+    MapProofs.wf P m -> (forall r, In r rows -> row_ok P m r) ->
+    MapProofs.wf P (update_ranges (p_V P) (p_dv P) (p_vadd P) (p_vor P) (p_vand P) (p_vzero P) (p_is_sent P)
+                                  (p_sent_nonzero P) m o rows value na).
+Proof. intros P o value m na rows W H. exact (ranges_wf P o value m W na rows H). Qed.
+
+(* the exclusion above is needed: 'add' of -1 over the overlapping ranges [2,6) and [4,8) on a map
+   whose sentinel is -1 — the slice path re-tests "cell = sentinel" before the second row (finding
+   F36, replayed against the implementation on every run) *)
+Theorem C08_overlapping_add_with_nonzero_sentinel_refuted :
+  let k := mkk 0 (-1 # 1) 1 in
+  let m0 := make_empty cellv 3 4 [(-1 # 1)%Q] (Some [0; 1]) in
+  let v := [(-1 # 1)%Q] in
+  let rows := [(2, 6); (4, 8)] in
+  exists q,
+    veqb (read cellv dcell (update_ranges cellv dcell v_add v_or v_and (k_zero k) (k_is_sent k) (k_sent_nonzero k) m0 UAdd rows v false) q)
+         (read cellv dcell (x_update k m0 UAdd (map (fun p => (p, v)) (expand_ranges rows)) false) q) = false.
+Proof. exists 4. vm_compute. reflexivity. Qed.
 
 (* every alignment of one range against the block edges and the last pixel, on a 48-pixel map,
    every operation: the slice path and the explicit-pixel path give the same dense array
@@ -47,4 +84,7 @@ Proof. vm_compute. reflexivity. Qed.
 Print Assumptions C08_ranges_contain.
 Print Assumptions C08_reserved_coverage_is_a_superset.
 Print Assumptions C08_slice_operation_pointwise.
+Print Assumptions C08_range_update_equals_explicit_pixel_update.
+Print Assumptions C08_range_update_keeps_layout.
+Print Assumptions C08_overlapping_add_with_nonzero_sentinel_refuted.
 Print Assumptions C08_single_range_all_alignments.
